@@ -242,7 +242,8 @@ func c11Run(c *Ctx, cs c11Case) {
 					if rp.FailWrapsEOF {
 						return false, errC11WrapsEOF
 					}
-					return false, errC11Callback
+					// every other failing callback says "stop" and fails at once
+					return idx%2 == 1, errC11Callback
 				}
 				return kd == "done0", nil
 			})
